@@ -49,6 +49,8 @@ def gen_lines(rng, cls="plain", max_measures=6):
         header.append(("LNOBJ", lnobj))
     for w in wav_ids:
         header.append((f"WAV{w}", rng.choice(["kick.wav", "snare 01.wav", "a.ogg"])))
+    if use_ln and rng.random() < 0.3:
+        header.append((f"WAV{lnobj}", "release.wav"))  # the end marker may have a sample of its own; it still ends the long note
     exb_ids = [b36(rng.randint(1, 200)) for _ in range(rng.randint(0, 3))]
     exb_ids = list(dict.fromkeys(exb_ids))
     for e in exb_ids:
